@@ -43,7 +43,7 @@ def recording_arrays(rng, n=None, family=None, amp=None):
     n = int(n if n is not None else rng.choice([16, 50, 200, 512, 1000, 3000, 6001, 12000, 30000, 40000, 70000]))
     amp = scale(rng) if amp is None else amp
     fam = family or SIGNALS[int(rng.integers(0, len(SIGNALS)))]
-    return [amp * rng.uniform(0.3, 3) * signal(rng, n, fam) for _ in range(3)]
+    return as_stored([amp * rng.uniform(0.3, 3) * signal(rng, n, fam) for _ in range(3)])
 
 
 def make_recording(ns, ew, vt, dt, degrees_from_north=0.0, meta=None):
@@ -144,3 +144,202 @@ def maybe_large(rng, ctx, normal, large, p_quick=0.01, p_thorough=0.03):
         ctx.count("large_size_cases")
         return int(rng.choice(large)), True
     return normal, False
+
+
+# -- the FORM of array arguments (values unchanged) ---------------------------------------------------------------
+# A caller may hold its samples / curves as a strided view, a read-only array, a column of a table, a big-endian array
+# read from a file, a list ...: the library documents "ndarray / iterable of floats" and converts on entry.  For a share of
+# the cases of every check the harness hands the arrays it built to hvsrpy's constructors in another form with the same
+# values, so that every oracle stays what it is.
+
+FORM_NAMES_1D = ["strided-view", "read-only", "column-of-a-table", "big-endian", "list", "tuple", "negative-stride", "memoryview-backed"]
+FORM_NAMES_2D = ["fortran-order", "read-only", "rows-of-a-larger-array", "big-endian", "list-of-lists", "transposed-view", "list-of-arrays"]
+
+
+_ACTIVE = None          # the ArgumentForms in force for the current case, if any
+
+
+def as_stored(arrays):
+    """Samples as a single-precision file stores them: when the current case varies the argument forms (and drew
+    'single precision'), the arrays a monitor has just built are rounded to values a float32 holds exactly - still as
+    float64 arrays, so the monitor's own model is unaffected - and `reform` may then hand them over as float32 arrays."""
+    if _ACTIVE is None or not _ACTIVE.single:
+        return arrays
+    if isinstance(arrays, np.ndarray):
+        return arrays.astype(np.float32).astype(np.float64)
+    return type(arrays)(a.astype(np.float32).astype(np.float64) if isinstance(a, np.ndarray) and a.dtype == np.float64 else a
+                        for a in arrays)
+
+
+def reform(rng, x):
+    """The same values in another array form; returns (value, form name)."""
+    a = np.asarray(x)
+    if a.dtype != np.float64 or a.size == 0 or a.ndim not in (1, 2):
+        return x, "as-given"
+    if _ACTIVE is not None and _ACTIVE.single and rng.random() < 0.7:
+        with np.errstate(all="ignore"):
+            a32 = a.astype(np.float32)
+            if bool(np.all(a32.astype(np.float64) == a)):
+                if bool(np.all(a == np.round(a))) and float(np.max(np.abs(a))) < 2 ** 31 and rng.random() < 0.3:
+                    return a.astype(np.int32), "int32"
+                return a32, "float32"
+    if a.ndim == 1:
+        k = int(rng.integers(0, len(FORM_NAMES_1D)))
+        name = FORM_NAMES_1D[k]
+        if name in ("list", "tuple") and a.size > 50000:
+            name = "strided-view"
+        if name == "strided-view":
+            buf = np.full(a.size * 2, np.nan)
+            buf[::2] = a
+            return buf[::2], name
+        if name == "read-only":
+            b = a.copy()
+            b.flags.writeable = False
+            return b, name
+        if name == "column-of-a-table":
+            tab = np.full((a.size, 3), np.nan)
+            tab[:, 1] = a
+            return tab[:, 1], name
+        if name == "big-endian":
+            return a.astype(">f8"), name
+        if name == "list":
+            return a.tolist(), name
+        if name == "tuple":
+            return tuple(a.tolist()), name
+        if name == "negative-stride":
+            return a[::-1].copy()[::-1], name
+        return np.frombuffer(memoryview(a.tobytes()), dtype=np.float64), name          # read-only, does not own its data
+    k = int(rng.integers(0, len(FORM_NAMES_2D)))
+    name = FORM_NAMES_2D[k]
+    if name in ("list-of-lists",) and a.size > 50000:
+        name = "fortran-order"
+    if name == "fortran-order":
+        return np.asfortranarray(a), name
+    if name == "read-only":
+        b = a.copy()
+        b.flags.writeable = False
+        return b, name
+    if name == "rows-of-a-larger-array":
+        big = np.full((a.shape[0] * 2, a.shape[1] + 2), np.nan)
+        big[::2, 1:-1] = a
+        return big[::2, 1:-1], name
+    if name == "big-endian":
+        return a.astype(">f8"), name
+    if name == "list-of-lists":
+        return a.tolist(), name
+    if name == "transposed-view":
+        return np.ascontiguousarray(a.T).T, name
+    return [row.copy() for row in a], name
+
+
+class ArgumentForms:
+    """While active, the array arguments that the HARNESS (modules under hvmon) passes to the constructors of
+    TimeSeries / HvsrCurve / HvsrTraditional / HvsrDiffuseField arrive in another form.  Calls made by the library
+    itself are left alone."""
+
+    def __init__(self, rng, ctx=None):
+        self.rng, self.ctx, self.saved = rng, ctx, []
+        self.single = bool(rng.random() < 0.5)
+
+    def _wrap(self, cls, positions):
+        import functools
+        import sys
+        orig = cls.__dict__.get("__init__")
+        if orig is None:               # inherited: the base class is wrapped
+            return
+        outer = self
+
+        @functools.wraps(orig)
+        def init(obj, *args, **kwargs):
+            caller = sys._getframe(1).f_globals.get("__name__", "")
+            if caller.startswith("hvmon"):
+                args = list(args)
+                for pos, key in positions:
+                    if pos < len(args):
+                        args[pos], name = reform(outer.rng, args[pos])
+                    elif key in kwargs:
+                        kwargs[key], name = reform(outer.rng, kwargs[key])
+                    else:
+                        continue
+                    if outer.ctx is not None and name != "as-given":
+                        outer.ctx.count("constructor_arguments_in_another_array_form")
+                        outer.ctx.count("array_form:" + name)
+            return orig(obj, *args, **kwargs)
+        self.saved.append((cls, orig))
+        cls.__init__ = init
+
+    def __enter__(self):
+        import hvsrpy
+        global _ACTIVE
+        _ACTIVE = self
+        self._wrap(hvsrpy.TimeSeries, [(0, "amplitude")])
+        self._wrap(hvsrpy.HvsrCurve, [(0, "frequency"), (1, "amplitude")])
+        self._wrap(hvsrpy.HvsrTraditional, [(0, "frequency"), (1, "amplitude")])
+        self._wrap(hvsrpy.HvsrDiffuseField, [(0, "frequency"), (1, "amplitude")])
+        return self
+
+    def __exit__(self, *exc):
+        global _ACTIVE
+        _ACTIVE = None
+        for cls, orig in reversed(self.saved):
+            cls.__init__ = orig
+        self.saved = []
+        return False
+
+
+def recreate_in_place(rng, obj):
+    """Give a result object the state of a copy.deepcopy / pickle round trip of itself (what an object returned by a
+    worker process, or a copy kept aside, is made of: no array of it is a view of another any more), keeping the
+    object's identity so that the harness's references stay valid.  Returns the name of the route taken."""
+    import copy
+    import pickle
+    how = str(rng.choice(["copy.deepcopy", "pickle"]))
+
+    def one(o):
+        new = copy.deepcopy(o) if how == "copy.deepcopy" else pickle.loads(pickle.dumps(o))
+        o.__dict__.clear()
+        o.__dict__.update(new.__dict__)
+    inner = getattr(obj, "hvsrs", None)
+    if inner is not None:
+        for h in inner:
+            one(h)
+    else:
+        one(obj)
+    return how
+
+
+SCALAR_TYPES = ["float", "int", "float64", "int64", "int32", "int16", "uint8", "int8", "float32", "float16", "zero-dim-array"]
+
+
+def scalar_form(rng, v, name=None):
+    """The number v as another numeric type that holds it EXACTLY (else as the Python float given)."""
+    v = float(v)
+    name = name or SCALAR_TYPES[int(rng.integers(0, len(SCALAR_TYPES)))]
+    integral = v == int(v) if np.isfinite(v) else False
+    if name == "int" and integral:
+        return int(v), name
+    if name == "float64":
+        return np.float64(v), name
+    if name in ("int64", "int32", "int16", "int8", "uint8") and integral and np.iinfo(name).min <= v <= np.iinfo(name).max:
+        return np.dtype(name).type(int(v)), name
+    if name in ("float32", "float16") and float(np.dtype(name).type(v)) == v:
+        return np.dtype(name).type(v), name
+    if name == "zero-dim-array":
+        return np.array(v), name
+    return v, "float"
+
+
+def vector_dtype_form(rng, x, name=None):
+    """A 1-D float vector as an array of another dtype that holds every entry exactly (else unchanged)."""
+    x = np.asarray(x, dtype=float)
+    name = name or str(rng.choice(["float64", "int64", "int32", "int16", "uint8", "float32", "list-of-int", "tuple-of-float"]))
+    integral = bool(np.all(x == np.round(x)))
+    if name in ("int64", "int32", "int16", "uint8") and integral and np.iinfo(name).min <= x.min() and x.max() <= np.iinfo(name).max:
+        return x.astype(name), name
+    if name == "float32" and bool(np.all(x.astype(np.float32).astype(float) == x)):
+        return x.astype(np.float32), name
+    if name == "list-of-int" and integral:
+        return [int(v) for v in x], name
+    if name == "tuple-of-float":
+        return tuple(float(v) for v in x), name
+    return x, "float64"
